@@ -47,7 +47,7 @@ static void pseudo_qxx(Integer num) {
     Boolean   ok = True;
     double    res;
 
-    if (!ChkArgCnt(1, ArgCntMax)) {
+    if (!ChkArgCnt(1, ArgCntMax) || !ChkArgCodeSpace(2)) {
         return;
     }
 
@@ -81,7 +81,7 @@ static void pseudo_lqxx(Integer num) {
     double    res;
     LongInt   resli;
 
-    if (!ChkArgCnt(1, ArgCntMax)) {
+    if (!ChkArgCnt(1, ArgCntMax) || !ChkArgCodeSpace(4)) {
         return;
     }
 
@@ -693,7 +693,7 @@ static void DecodeWORD_TI34x(Word Code) {
 
     UNUSED(Code);
 
-    if (ChkArgCnt(1, ArgCntMax)) {
+    if (ChkArgCnt(1, ArgCntMax) && ChkArgCodeSpace(4)) {
         OK = True;
         forallargs(pArg, True) if (OK) DAsmCode[CodeLen++]
                 = EvalStrIntExpression(pArg, Int32, &OK);
@@ -711,7 +711,7 @@ static void DecodeDATA_TI34x(Word Code) {
     UNUSED(Code);
     as_tempres_ini(&t);
 
-    if (ChkArgCnt(1, ArgCntMax)) {
+    if (ChkArgCnt(1, ArgCntMax) && ChkArgCodeSpace(8)) {
         OK = True;
         forallargs(pArg, OK) if (OK) {
             EvalStrExpression(pArg, &t);
